@@ -16,6 +16,24 @@ pub enum MOp {
     /// `emit_wasm_file` onto a path that already holds a longer file; the bytes left on disk must be
     /// exactly what `emit_wasm` returns
     EmitFile,
+    /// C12 only, the documented idiom for taking a section over: for every name among the input's
+    /// unknown sections, `while let Some(raw) = customs.remove_raw(name) { customs.add(Typed(raw)) }`
+    /// where `Typed` is a user-defined `CustomSection` that reproduces name and bytes
+    Rewrap,
+}
+
+#[derive(Debug)]
+struct Typed {
+    name: String,
+    data: Vec<u8>,
+}
+impl walrus::CustomSection for Typed {
+    fn name(&self) -> &str {
+        &self.name
+    }
+    fn data(&self, _: &walrus::IdsToIndices) -> std::borrow::Cow<'_, [u8]> {
+        std::borrow::Cow::Borrowed(&self.data)
+    }
 }
 
 pub struct Obj {
@@ -23,6 +41,8 @@ pub struct Obj {
     emits: usize,
     gcs: usize,
     findings: Vec<Finding>,
+    /// sections were removed and added back by the history: their order is the history's doing
+    rewrapped: bool,
 }
 
 pub struct ModSubject<'a> {
@@ -96,7 +116,16 @@ impl<'a> ModSubject<'a> {
             Ok(m) => m.uninterpreted_customs(),
             Err(_) => return, // undecodable output is C02's business
         };
-        if got != self.input_customs {
+        let same = if o.rewrapped {
+            let mut a = got.clone();
+            let mut b = self.input_customs.clone();
+            a.sort();
+            b.sort();
+            a == b
+        } else {
+            got == self.input_customs
+        };
+        if !same {
             let kind = if got.len() < self.input_customs.len() {
                 "missing"
             } else if got.len() > self.input_customs.len() {
@@ -134,15 +163,39 @@ impl<'a> Subject for ModSubject<'a> {
     type Obj = Obj;
     fn fresh(&self) -> Result<Obj, String> {
         match parse(self.wasm, &self.cfg) {
-            Ok(m) => Ok(Obj { m, emits: 0, gcs: 0, findings: vec![] }),
+            Ok(m) => Ok(Obj { m, emits: 0, gcs: 0, findings: vec![], rewrapped: false }),
             Err(f) => Err(f.detail()),
         }
     }
     fn ops(&self, _h: &[MOp]) -> Vec<MOp> {
-        vec![MOp::Emit, MOp::Gc, MOp::Reparse, MOp::EmitFile]
+        if self.prop == "C12" {
+            vec![MOp::Emit, MOp::Gc, MOp::Reparse, MOp::EmitFile, MOp::Rewrap]
+        } else {
+            vec![MOp::Emit, MOp::Gc, MOp::Reparse, MOp::EmitFile]
+        }
     }
     fn apply(&self, o: &mut Obj, op: &MOp, _at: usize) -> Result<(), Finding> {
         match op {
+            MOp::Rewrap => {
+                let mut names: Vec<String> = vec![];
+                for (n, _) in &self.input_customs {
+                    if !names.contains(n) {
+                        names.push(n.clone());
+                    }
+                }
+                for n in names {
+                    let mut guard = 0;
+                    while let Some(raw) = o.m.customs.remove_raw(&n) {
+                        o.m.customs.add(Typed { name: raw.name, data: raw.data });
+                        guard += 1;
+                        if guard > 64 {
+                            o.findings.push(Finding { sig: "remove-raw-never-exhausted".into(), detail: format!("remove_raw({:?}) keeps returning sections after they were all taken", n) });
+                            break;
+                        }
+                    }
+                }
+                o.rewrapped = true;
+            }
             MOp::EmitFile => {
                 static SERIAL: std::sync::atomic::AtomicUsize = std::sync::atomic::AtomicUsize::new(0);
                 let dir = std::path::Path::new("/verif/work/modhist");
@@ -257,6 +310,7 @@ fn hist_of(cfg: &serde_json::Value) -> Vec<MOp> {
                     Some("gc") => Some(MOp::Gc),
                     Some("reparse") => Some(MOp::Reparse),
                     Some("emit-file") => Some(MOp::EmitFile),
+                    Some("rewrap") => Some(MOp::Rewrap),
                     _ => None,
                 })
                 .collect()
@@ -264,7 +318,7 @@ fn hist_of(cfg: &serde_json::Value) -> Vec<MOp> {
         .unwrap_or_default()
 }
 fn hist_json(h: &[MOp]) -> serde_json::Value {
-    json!(h.iter().map(|o| match o { MOp::Emit => "emit", MOp::Gc => "gc", MOp::Reparse => "reparse", MOp::EmitFile => "emit-file" }).collect::<Vec<_>>())
+    json!(h.iter().map(|o| match o { MOp::Emit => "emit", MOp::Gc => "gc", MOp::Reparse => "reparse", MOp::EmitFile => "emit-file", MOp::Rewrap => "rewrap" }).collect::<Vec<_>>())
 }
 
 pub struct CaseOut {
